@@ -103,6 +103,16 @@ InitParams ==
          {[g |-> MkGraph(ek, {}, NoPool, {}, 1), dirty |-> Steps, outcome |-> AllOk, j |-> 2, k |-> 0,
            targets |-> t, pre |-> {}, adopt |-> FALSE] :
             ek \in [AllPairs -> {"none", "ex", "val"}], t \in {{Name("o", 1)}, OutFiles}}
+    \* Family "diamond" (N = 4, thorough tier): shapes three steps cannot have - two paths from one
+    \* producer to one consumer, a consumer of two independent producers, a failure on one path.
+    [] Family = "diamond" ->
+         {[g |-> MkGraph([e \in Forward |-> IF e \in DOMAIN ek THEN ek[e] ELSE "none"], ph, pl, {}, 1),
+           dirty |-> d, outcome |-> o, j |-> j, k |-> 0,
+           targets |-> t, pre |-> {}, adopt |-> FALSE] :
+            ek \in [{<<1, 2>>, <<1, 3>>, <<2, 4>>, <<3, 4>>} -> {"none", "ex", "oo", "val"}],
+            ph \in {{}, {2}, {4}, {2, 3}}, pl \in {NoPool, [s \in Steps |-> IF s \in {2, 3} THEN "p" ELSE ""]},
+            d \in {Steps, {1}, {2}, {4}, {1, 3}, {2, 3}}, o \in {AllOk, [s \in Steps |-> IF s = 2 THEN "fail" ELSE "ok"]},
+            j \in {2, 3}, t \in {OutFiles, {Name("o", 4)}}}
     [] Family = "pre" ->
          {[g |-> MkGraph(ek, ph, NoPool, {}, 1), dirty |-> d, outcome |-> o, j |-> 2, k |-> 0,
            targets |-> t, pre |-> p, adopt |-> a] :
